@@ -591,6 +591,23 @@ def r9_every_use_statement_applied(ctx, rep):
                     f"the loop iterates `{ast.unparse(loop.iter)[:60]}`, which is not derived from the recorded `uses`"), py.nloc(loop))
     if n < 2:
         raise AnalysisError(f"only {n} import loop(s) calling get_used_entities found")
+    # ... and each of them is applied: inside the loop nothing but "this module is not known (its name is still a string)" may
+    # skip a statement - a memory of modules "already imported entirely" drops a later `use m, only: alias => entity`
+    for mod, fn in py.all_functions():
+        if mod != "sourceform":
+            continue
+        evs = [e for e in astq.trace(fn) if e.kind == "call" and call_name(e.node).split(".")[-1] == "get_used_entities" and e.loops
+               and py.enclosing_function(e.node) is fn]
+        for e in evs:
+            loop = e.loops[-1]
+            outer = {id(t) for t, _p, _s in next((x.conds for x in astq.trace(fn) if x.kind == "loop" and x.node is loop), [])}
+            inner = [(t, p_) for t, p_, _s in e.conds if id(t) not in outer]
+            other = [(t, p_) for t, p_ in inner if not (any(isinstance(c, ast.Call) and call_name(c) == "isinstance" for c in ast.walk(t))
+                                                         and not any(isinstance(c, ast.Compare) for c in ast.walk(t)))]
+            rep.ob(f"{py.qualname(fn)}: no recorded USE statement of a known module is skipped", not other,
+                   "only unresolved module names are skipped" if not other else
+                   f"the import of a USE statement also depends on {[ast.unparse(t)[:60] for t, _p in other]}: a statement that is skipped "
+                   f"contributes none of its names (renames, ONLY lists) to the scope", py.nloc(e.node))
     # after the imports the recorded pairs are replaced by the modules themselves - once each, however many USE statements
     # named them (sibling agreement: FortranCodeUnit.correlate builds a set)
     m = 0
